@@ -42,7 +42,8 @@ def replacements(sel, spos):
            ('identical', list(sel), spos.copy()),
            ('smaller: first atom only', [sel[0]], spos[:1].copy()),
            ('last retained, listed first', [sel[-1]] + ['Xe'] * (k - 1), np.vstack([spos[-1:], spos[:-1]])),
-           ('identical, listed in reverse', list(sel)[::-1], spos[::-1].copy())]
+           ('identical, listed in reverse', list(sel)[::-1], spos[::-1].copy()),
+           ('last atom displaced by 0.04 A (same element, not the same atom), rest retained', list(sel), np.vstack([spos[:-1], spos[-1:] + [0.0, 0.04, 0.0]]))]
     return out
 
 
@@ -57,7 +58,7 @@ def plan(tier, seed):
             for qi in range(len(SEARCH)):
                 if not set(SEARCH[qi][1]) <= set(STRUCTS[si][1]):
                     continue
-                for ri in range(9):
+                for ri in range(10):
                     for pl in range(len(PLACES)):
                         for ra in (0, 1):
                             for ig in (0, 1):
